@@ -69,6 +69,12 @@ impl FileStorage {
 
 impl StorageData for FileStorage {
     fn backup(&self, name: &str) -> Result<(), DbError> {
+        let stale_wal = WriteAheadLog::wal_filename(name);
+
+        if std::fs::exists(&stale_wal)? {
+            std::fs::remove_file(stale_wal)?;
+        }
+
         std::fs::copy(&self.filename, name)?;
         Ok(())
     }
